@@ -105,6 +105,45 @@ Proof.
   destruct (st_id h =? id); [reflexivity | exact IH].
 Qed.
 
+Lemma put_In l x st : NoDup (map st_id l) -> In st (strms_put l x) -> st = x \/ (In st l /\ st_id st <> st_id x).
+Proof.
+  induction l as [|h t IH]; cbn [strms_put map In]; [tauto|]. intros ND H. inversion ND as [|? ? NI ND']; subst.
+  destruct (st_id h =? st_id x) eqn:E.
+  - destruct H as [H|H]; [left; auto|]. right. split; [right; exact H|].
+    intro X. apply NI. apply N.eqb_eq in E. rewrite E, <- X. apply in_map, H.
+  - destruct H as [H|H]; [subst st; right; split; [left; reflexivity | lia]|].
+    destruct (IH ND' H) as [X|[X Y]]; [left; exact X | right; split; [right; exact X | exact Y]].
+Qed.
+
+Lemma del_In l id st : NoDup (map st_id l) -> In st (strms_del l id) -> In st l /\ st_id st <> id.
+Proof.
+  induction l as [|h t IH]; cbn [strms_del map In]; [tauto|]. intros ND H. inversion ND as [|? ? NI ND']; subst.
+  destruct (st_id h =? id) eqn:E.
+  - split; [right; exact H|]. intro X. apply NI. apply N.eqb_eq in E. rewrite E, <- X. apply in_map, H.
+  - destruct H as [H|H]; [subst st; split; [left; reflexivity | lia]|].
+    destruct (IH ND' H) as [X Y]. split; [right; exact X | exact Y].
+Qed.
+
+Lemma put_nodup l x : NoDup (map st_id l) -> NoDup (map st_id (strms_put l x)).
+Proof. rewrite put_ids. auto. Qed.
+
+Lemma del_put l x : strms_del (strms_put l x) (st_id x) = strms_del l (st_id x).
+Proof.
+  induction l as [|h t IH]; cbn [strms_put strms_del]; [reflexivity|].
+  destruct (st_id h =? st_id x) eqn:E; cbn [strms_del].
+  - rewrite N.eqb_refl. reflexivity.
+  - rewrite E. f_equal. exact IH.
+Qed.
+
+Lemma app_nodup l x : NoDup (map st_id l) -> ~ In (st_id x) (map st_id l) -> NoDup (map st_id (l ++ [x])).
+Proof.
+  intros ND NI. rewrite map_app. cbn [map]. induction (map st_id l) as [|a t IH]; cbn [app].
+  - constructor; [tauto | constructor].
+  - inversion ND; subst. constructor.
+    + rewrite in_app_iff. cbn [In]. intros [H|[H|[]]]; [tauto | subst; apply NI; left; reflexivity].
+    + apply IH; [assumption | intro H; apply NI; right; exact H].
+Qed.
+
 (* ---------- the ring ---------- *)
 
 Lemma NoDup_snoc {A} (l : list A) x : NoDup l -> ~ In x l -> NoDup (l ++ [x]).
@@ -302,6 +341,24 @@ Proof. intros [A B]. split; sc_rw; assumption. Qed.
 
 Lemma wr_emit c o : wr c -> wr (emit c o).
 Proof. intros [A B]. split; sc_rw; assumption. Qed.
+
+Lemma sc_oldest_close_stream c s : sc_oldest (close_stream c s) = sc_oldest (mark_closed c (st_id s) (st_weReset s)).
+Proof.
+  rewrite close_stream_eq. cbv zeta. unfold close_discard, release_stream, note. 
+  repeat match goal with |- context [if ?b then _ else _] => destruct b end; sc_cbn; reflexivity.
+Qed.
+
+Lemma sc_discardID_close_stream c s :
+  sc_discardID (close_stream c s) =
+  if st_weReset s && negb (st_headersFinished s) && negb (sc_discardID c =? st_id s) then st_id s else sc_discardID c.
+Proof.
+  rewrite close_stream_eq. cbv zeta. unfold close_discard, release_stream, note.
+  assert (D : sc_discardID (upd_strms (mark_closed c (st_id s) (st_weReset s)) (strms_del (sc_strms c) (st_id s))) = sc_discardID c).
+  { sc_cbn. unfold mark_closed. repeat match goal with |- context [if ?b then _ else _] => destruct b end; reflexivity. }
+  rewrite D.
+  destruct (st_weReset s && negb (st_headersFinished s) && negb (sc_discardID c =? st_id s))%bool;
+    repeat match goal with |- context [if ?b then _ else _] => destruct b end; sc_cbn; try reflexivity; exact D.
+Qed.
 
 Lemma new_out_ext c c' d : sc_out c' = d ++ sc_out c -> new_out hstate c c' = rev d.
 Proof.
